@@ -34,6 +34,9 @@ ASSUMPTIONS = ["the transformation matrix the library puts on its stack is *vali
                "protecting an object after it was transformed inside a context keeps the inner representation by documented semantics: only the idiom "
                "protect-before-entry / unprotect-after-exit is generated",
                "StateVector objects are not in the statement's list",
+               "context operators with complex off-diagonal elements (unitary transformations): presentation, restoration and bookkeeping are "
+               "checked for every kind of object; the ACTION of operator-form tensors inside such a context is not (the library forms K^dagger of "
+               "its real-by-construction operators as a transpose)",
                "'library-inside-context' covers computations whose inputs are all basis managed (tensors and states made outside, the "
                "aggregate's Redfield-family builders which use the protect/enter idiom).  Not claimed inside a context, because their inputs are "
                "unmanaged site-basis data by design: PureDephasing (documented 'intentionally not basis managed'), constructors fed by a "
@@ -57,7 +60,7 @@ def gen_cases(tier, rng):
         u = rng.random()
         exc = "harness" if u < 0.5 else ("failpoint" if u < 0.65 else "none")
         cases.append({"cls": "program:" + exc, "seed": int(rng.integers(1 << 30)), "dim": int(rng.integers(2, 6)), "nobj": int(rng.integers(2, 6)),
-                      "depth": int(rng.integers(1, 4)), "exc": exc, "steps": int(rng.integers(5, 41)), "cost": 1})
+                      "depth": int(rng.integers(1, 4)), "exc": exc, "steps": int(rng.integers(5, 41)), "complex_ctx": bool(i % 4 == 3), "cost": 1})
     for i in range(12 if tier == "quick" else 60):
         cases.append({"cls": "constructor-failure", "seed": int(rng.integers(1 << 30)), "dim": int(rng.integers(2, 5)), "depth": int(rng.integers(1, 3)),
                       "which": str(rng.choice(["Operator", "SuperOperator", "TransitionDipoleMoment", "ReducedDensityMatrix"])), "cost": 0.5})
@@ -155,27 +158,35 @@ def rsym(rng, n, kind):
         return q @ numpy.diag(ev) @ q.T
     if kind == "diagonal":
         return numpy.diag(numpy.sort(rng.normal(size=n)))
+    if kind == "complex":
+        a = rng.normal(size=(n, n)) + 1j * rng.normal(size=(n, n))
+        return (a + numpy.conj(a).T) / 2
     a = rng.normal(size=(n, n))
     return (a + a.T) / 2
 
 
+def dag(S):
+    """inverse of a unitary (orthogonal) transformation"""
+    return numpy.conj(S).T
+
+
 def tr_op(d, S):
-    return S.T @ d @ S
+    return dag(S) @ d @ S
 
 
 def tr_any(d, S, kind):
     """site representation d -> representation in the basis reached by S (columns = new basis vectors)"""
     if kind == "TransitionDipoleMoment":
-        return numpy.stack([S.T @ d[:, :, k] @ S for k in range(3)], axis=2)
+        return numpy.stack([dag(S) @ d[:, :, k] @ S for k in range(3)], axis=2)
     if kind in ("SuperOperator", "LindbladTensor"):
-        return numpy.einsum("ia,jb,ijkl,kc,ld->abcd", S, S, d, S, S)
+        return numpy.einsum("ia,jb,ijkl,kc,ld->abcd", numpy.conj(S), S, d, S, numpy.conj(S))
     if kind == "Evolution":
-        return numpy.stack([S.T @ d[k] @ S for k in range(d.shape[0])], axis=0)
+        return numpy.stack([dag(S) @ d[k] @ S for k in range(d.shape[0])], axis=0)
     if kind == "EvolutionSuperOperator":
-        return numpy.einsum("ia,jb,tijkl,kc,ld->tabcd", S, S, d, S, S)
+        return numpy.einsum("ia,jb,tijkl,kc,ld->tabcd", numpy.conj(S), S, d, S, numpy.conj(S))
     if kind == "LindbladOperators":
-        return numpy.stack([S.T @ d[k] @ S for k in range(d.shape[0])], axis=0)
-    return S.T @ d @ S
+        return numpy.stack([dag(S) @ d[k] @ S for k in range(d.shape[0])], axis=0)
+    return dag(S) @ d @ S
 
 
 class Obj:
@@ -378,13 +389,13 @@ def run_case(case, ctx):
                 A.protect_basis()
             try:
                 with qr.eigenbasis_of(A):
-                    S = numpy.array(m.basis_transformations[-1], dtype=float)
+                    S = numpy.array(m.basis_transformations[-1])
                     bd = numpy.array(B.data)
-                    ctx.check("presented-in-context-basis", float(numpy.max(numpy.abs(S.T @ S - numpy.eye(n)))), 1e-10 * n, {"what": "transformation orthogonal", "visit": tag})
-                    dg = S.T @ ref @ S
+                    ctx.check("presented-in-context-basis", float(numpy.max(numpy.abs(dag(S) @ S - numpy.eye(n)))), 1e-10 * n, {"what": "transformation orthogonal", "visit": tag})
+                    dg = dag(S) @ ref @ S
                     ctx.check("presented-in-context-basis", float(numpy.max(numpy.abs(dg - numpy.diag(numpy.diag(dg))))), tol(ref),
                               {"what": "the transformation diagonalises the context operator as it is now", "visit": tag, "kind": kind, "first": first, "write": write})
-                    ctx.check("presented-in-context-basis", float(numpy.max(numpy.abs(bd - S.T @ Bd @ S))), tol(Bd), {"what": "other operator in the context basis", "visit": tag})
+                    ctx.check("presented-in-context-basis", float(numpy.max(numpy.abs(bd - dag(S) @ Bd @ S))), tol(Bd), {"what": "other operator in the context basis", "visit": tag})
                     if how == "read":
                         ad = numpy.array(A.data)
                         off = float(numpy.max(numpy.abs(ad - numpy.diag(numpy.diag(ad)))))
@@ -454,7 +465,7 @@ def run_case(case, ctx):
     def create(Stot, kind=None):
         """create an object in the CURRENT basis; returns Obj with its site-basis reference"""
         kind = kind or str(rng.choice(KINDS))
-        Sinv = Stot.T
+        Sinv = dag(Stot)
         with contextlib.redirect_stdout(out):
             if kind == "Operator":
                 d = rng.normal(size=(n, n))
@@ -513,6 +524,9 @@ def run_case(case, ctx):
     for k in range(2):
         d = rsym(rng, n, str(rng.choice(["generic", "generic", "degenerate", "diagonal"])))
         if k == 1 and rng.random() < 0.6:
+            if case.get("complex_ctx"):
+                # a self-adjoint operator with complex off-diagonal elements: its eigenbasis is reached by a unitary, not an orthogonal matrix
+                d = rsym(rng, n, "complex")
             ctxops.append(Obj("SelfAdjointOperator", qm.SelfAdjointOperator(data=d.copy()), d.copy()))
         else:
             ctxops.append(Obj("Hamiltonian", qr.Hamiltonian(data=d.copy()), d.copy()))
@@ -564,7 +578,7 @@ def run_case(case, ctx):
                 new = cur * 0.5 + (0.1 if o.kind != "ReducedDensityMatrix" else 0.0)
                 with ctx.lib("writing managed data", mechanism=None, expect=Boom):
                     o.obj.data = new.copy()
-                o.ref = tr_any(new, Stot.T, o.kind)
+                o.ref = tr_any(new, dag(Stot), o.kind)
                 check_read(o, Stot, level)
             elif ev == "CREATE":
                 objs.append(create(Stot))
@@ -614,15 +628,15 @@ def run_case(case, ctx):
                                     if i0 != j0:
                                         dd[j0, i0] += x
                                         cur[j0, i0] += x
-                                    A.ref = tr_op(cur, Stot.T)
+                                    A.ref = tr_op(cur, dag(Stot))
                             elif mode == "assign" and getattr(A, "jr", None) is None:
                                 events.append("M:assign")
                                 cur = tr_op(A.ref, Stot)
                                 new = 0.7 * cur + 0.3 * tr_op(rsym(rng, n, "generic"), Stot)
-                                new = (new + new.T) / 2
+                                new = (new + dag(new)) / 2
                                 A.obj.data = new.copy()
                                 A.lvl = level
-                                A.ref = tr_op(new, Stot.T)
+                                A.ref = tr_op(new, dag(Stot))
                     if rng.random() < 0.3:
                         check_read(A, Stot, level)
             elif ev == "AT":
@@ -655,7 +669,11 @@ def run_case(case, ctx):
                             v = numpy.trace(numpy.array(x.obj.data) @ numpy.array(r.obj.data))
                         ctx.check("scalars-invariant", abs(v - numpy.trace(x.ref @ r.ref)), 1e-10 * scale(x.ref) * n, {"what": "tr(A rho)", "level": level})
             elif ev == "APPLY":
-                ts = [x for x in objs if x.kind in ("SuperOperator", "LindbladTensor", "LindbladOperators") and x.protected_S is None]
+                # (operator-form tensors take K^T for the adjoint of their - by construction real - operators: their action is not
+                #  exercised while a context with a unitary, non-orthogonal transformation is open)
+                cplx_open = any(numpy.iscomplexobj(x.ref) for x in active)
+                ts = [x for x in objs if x.kind in ("SuperOperator", "LindbladTensor", "LindbladOperators") and x.protected_S is None
+                      and not (cplx_open and x.kind == "LindbladOperators")]
                 rhos = [x for x in objs if x.kind in ("ReducedDensityMatrix", "DensityMatrix") and x.protected_S is None]
                 if ts and rhos:
                     T, r = ts[int(rng.integers(len(ts)))], rhos[int(rng.integers(len(rhos)))]
@@ -668,7 +686,7 @@ def run_case(case, ctx):
                         Km, Lm, Ld = T.ref[0:1], T.ref[1:2], T.ref[2:3]
                         site = numpy.zeros((n, n), dtype=complex)
                         for mm in range(Km.shape[0]):
-                            Kd = Km[mm].T
+                            Kd = dag(Km[mm])
                             site += (Km[mm] @ r.ref @ Ld[mm] + Lm[mm] @ r.ref @ Kd - Kd @ Lm[mm] @ r.ref - r.ref @ Ld[mm] @ Km[mm])
                     else:
                         site = numpy.tensordot(T.ref, r.ref)
@@ -694,7 +712,7 @@ def run_case(case, ctx):
                     tol = 6 * (x ** 5 / 120.0) * numpy.exp(x) * 4 + 1e-9
                     ctx.check("scalars-invariant", float(numpy.max(numpy.abs(got - exp))), tol * n, {"what": "propagated dynamics", "level": level, "x": x})
                     # the stored trajectory itself (Taylor integrator) is the object's content from now on
-                    objs.append(Obj("Evolution", evo, tr_any(got, Stot.T, "Evolution")))
+                    objs.append(Obj("Evolution", evo, tr_any(got, dag(Stot), "Evolution")))
             elif ev == "PROTECT" and level < case["depth"] and o.protected_S is None and o.kind in ("Operator", "Hamiltonian", "ReducedDensityMatrix", "SelfAdjointOperator"):
                 # documented idiom: protect, enter, ..., leave, unprotect
                 events.append("PROT:" + o.kind)
@@ -756,10 +774,10 @@ def run_case(case, ctx):
                               {"what": "eigenvalues", "level": level + 1, "kind": A.kind, "events": events[-12:]})
                 else:
                     events.append("(unread)")
-                S = numpy.array(m.basis_transformations[-1], dtype=float)
-                ctx.check("presented-in-context-basis", float(numpy.max(numpy.abs(S.T @ S - numpy.eye(n)))), 1e-10 * n, {"what": "transformation orthogonal", "level": level + 1})
+                S = numpy.array(m.basis_transformations[-1])
+                ctx.check("presented-in-context-basis", float(numpy.max(numpy.abs(dag(S) @ S - numpy.eye(n)))), 1e-10 * n, {"what": "transformation unitary", "level": level + 1})
                 Acur = tr_op(A.ref, Stot)
-                dg = S.T @ Acur @ S
+                dg = dag(S) @ Acur @ S
                 ctx.check("presented-in-context-basis", float(numpy.max(numpy.abs(dg - numpy.diag(numpy.diag(dg))))), 1e-9 * scale(A.ref) * n,
                           {"what": "the stacked transformation diagonalises the context operator", "level": level + 1})
                 ctx.require("bookkeeping-restored", m.current_basis_operator is A.obj, {"what": "current_basis_operator inside the context", "level": level + 1})
